@@ -302,12 +302,13 @@ E(name, who, c, id, to, amt, data, cname) ==
    data |-> data, cname |-> cname, ok |-> TRUE, panic |-> FALSE, gen |-> ""]
 
 Step(e) ==
-  LET r == Apply(st, e)
-      e2 == [e EXCEPT !.ok = r.ok, !.panic = r.panic, !.gen = r.gen]
-  IN /\ st' = r.st
-     /\ ev' = e2
-     /\ gh' = GhostStep(gh, st, e2, r.st)
-     /\ hist' = IF RecordHist THEN Append(hist, e2) ELSE hist
+  \* the singleton quantifier makes TLC evaluate Apply once per transition
+  \E r \in {Apply(st, e)} :
+    LET e2 == [e EXCEPT !.ok = r.ok, !.panic = r.panic, !.gen = r.gen] IN
+    /\ st' = r.st
+    /\ ev' = e2
+    /\ gh' = GhostStep(gh, st, e2, r.st)
+    /\ hist' = IF RecordHist THEN Append(hist, e2) ELSE hist
 
 DenomIds == {DId(n) : n \in 1..MaxD}
 MTIds == {MId(n) : n \in 1..MaxM}
